@@ -148,17 +148,6 @@ func (g *c05Gen) row() []byte {
 	return append([]byte{byte('a' + g.r.Intn(26))}, rbytes(g.r, g.r.Intn(5))...)
 }
 
-func canonFilter(f *pb.Filter) string {
-	if f == nil {
-		return "-"
-	}
-	pf := &pb.PrefixFilter{}
-	if err := proto.Unmarshal(f.SerializedFilter, pf); err != nil {
-		return "undecodable:" + f.GetName()
-	}
-	return fmt.Sprintf("%s(%q)", f.GetName(), pf.Prefix)
-}
-
 // genGet builds a Get and its specification.
 func (g *c05Gen) genGet(ctx context.Context, skipBatch bool) (hrpc.Call, c05Spec) {
 	r := g.r
@@ -205,9 +194,9 @@ func (g *c05Gen) genGet(ctx context.Context, skipBatch bool) (hrpc.Call, c05Spec
 	}
 	flt := "-"
 	if r.Intn(4) == 0 {
-		p := rbytes(r, 1+r.Intn(3))
-		opts = append(opts, hrpc.Filters(filter.NewPrefixFilter(p)))
-		flt = fmt.Sprintf("org.apache.hadoop.hbase.filter.PrefixFilter(%q)", p)
+		var f filter.Filter
+		f, flt = genFilter(r, 2)
+		opts = append(opts, hrpc.Filters(f))
 	}
 	prio := uint32(0)
 	if r.Intn(4) == 0 {
@@ -459,9 +448,9 @@ func (g *c05Gen) genScan(ctx context.Context) (*hrpc.Scan, c05Spec) {
 	}
 	flt := "-"
 	if r.Intn(3) == 0 {
-		p := rbytes(r, 1+r.Intn(3))
-		opts = append(opts, hrpc.Filters(filter.NewPrefixFilter(p)))
-		flt = fmt.Sprintf("org.apache.hadoop.hbase.filter.PrefixFilter(%q)", p)
+		var f filter.Filter
+		f, flt = genFilter(r, 2)
+		opts = append(opts, hrpc.Filters(f))
 	}
 	cache := true
 	if r.Intn(4) == 0 {
@@ -829,6 +818,10 @@ func runC05Case(c *fw.Ctx, id string, cfg c05Config, seed int64, opsPer int) {
 	}
 	_ = compressedFrames
 	c.Count("frames_decoded", int64(frames))
+	for k, v := range takeFilterKinds() {
+		c.Count("filters_"+k, v)
+		c.Count("filters_generated", v)
+	}
 }
 
 func clip(s string) string {
@@ -843,7 +836,8 @@ func init() {
 		ID:    "C05",
 		Level: "exploration",
 		Rule: "generated gets, puts, deletes (family / family-version / column / column-version), appends, increments, " +
-			"check-and-puts, scans and batches with random option combinations (time range, versions, limits, filter, " +
+			"check-and-puts, scans and batches with random option combinations (time range, versions, limits, filter trees " +
+			"up to depth 3 over all 29 filter classes and 7 comparators of the filter package built through their public constructors, " +
 			"priority, consistency, durability, TTL, timestamps incl. latest), nil/empty qualifiers, values below and above " +
 			"the compression chunk; configurations codec {none,snappy} x connection {TCP, wrapped net.Conn} x senders " +
 			"{1,2,8,24} on one connection mixing batched and unbatched calls x queue size/flush interval. Every frame is " +
@@ -859,7 +853,8 @@ func init() {
 		Floors: func(tier string) map[string]int64 {
 			return map[string]int64{"calls_checked": 5000, "calls_get": 500, "calls_put": 300, "calls_delete": 100, "calls_delete1": 100,
 				"calls_append": 100, "calls_increment": 100, "calls_scan": 100, "frames_decoded": 3000, "cases_concurrent_wrapped": 10,
-				"cases_snappy": 10, "cases_big_payload": 4, "connection_headers_checked": 100, "batches_with_a_call_cancelled_before_flush": 50, "scan_continuations_checked": 30}
+				"cases_snappy": 10, "cases_big_payload": 4, "connection_headers_checked": 100, "batches_with_a_call_cancelled_before_flush": 50, "scan_continuations_checked": 30, "filters_generated": 500,
+				"filters_FilterList": 10, "filters_SingleColumnValueFilter": 5, "filters_ColumnRangeFilter": 5, "filters_RegexStringComparator": 5}
 		},
 		Run: runC05,
 	})
